@@ -188,9 +188,12 @@ fn twin_case(r: &mut Rng, id: usize) -> Case {
     seed_ops(1, &mut ops, r, &mut used);
     let mut g3 = c03::Gen::new(r.fork());
     let n = 3 + r.below(22);
+    let binary_ok = r.chance(1, 4);
     for _ in 0..n {
         let c = gen_direct(r, &mut g3);
         if !twin_ok(&c, db) { continue; }
+        // most twin pairs use text arguments only (binary data meets the lossy conversions: class lua-lossy)
+        let c: Vec<Vec<u8>> = if binary_ok { c } else { c.into_iter().map(|a| if std::str::from_utf8(&a).is_err() { b"caf\xc3\xa9".to_vec() } else { a }).collect() };
         let name = c[0].to_ascii_uppercase();
         let kp = key_positions(&name, c.len());
         for &j in &kp { if !used.contains(&c[j]) && used.len() < 14 { used.push(c[j].clone()); } }
@@ -422,7 +425,6 @@ fn impl_to_resp(l: &L) -> V {
 fn has_nil(v: &V) -> bool { match v { V::Array(l) => l.iter().any(|x| matches!(x, V::NullBulk | V::NullArray) || has_nil(x)), _ => false } }
 fn has_empty(v: &V) -> bool { match v { V::Array(l) => l.is_empty() || l.iter().any(has_empty), _ => false } }
 fn has_bin(v: &V) -> bool { match v { V::Bulk(b) | V::Simple(b) => std::str::from_utf8(b).is_err(), V::Array(l) => l.iter().any(has_bin), _ => false } }
-fn has_big(v: &V) -> bool { match v { V::Int(i) => through_double(*i) != *i, V::Array(l) => l.iter().any(has_big), _ => false } }
 
 /// command-level classes: the executor and the direct handler disagree on this input
 fn command_class(c: &[Vec<u8>]) -> Option<&'static str> {
@@ -443,6 +445,15 @@ fn command_class(c: &[Vec<u8>]) -> Option<&'static str> {
     }
 }
 
+fn std_view(v: &V) -> V {
+    // the standard conversion is the identity except that integers travel as Lua numbers (doubles)
+    match v { V::Int(i) => V::Int(through_double(*i)), V::Array(l) => V::Array(l.iter().map(std_view).collect()), x => x.clone() }
+}
+fn sort_bulks(v: V) -> V {
+    match v { V::Array(mut l) => { l.sort_by(|a, b| match (a, b) { (V::Bulk(x), V::Bulk(y)) => x.cmp(y), _ => std::cmp::Ordering::Equal }); V::Array(l) } x => x }
+}
+const STATE_CLASSES: &[&str] = &["lua-lossy", "lua-set-options", "lua-expire-nonpositive", "lua-renamenx-is-rename"];
+
 pub fn judge(c: &Case, outs: &[Vec<Tok>]) -> Vec<String> {
     let mut fails = vec![];
     if !c.id.starts_with("tw-") { return fails; }
@@ -452,47 +463,41 @@ pub fn judge(c: &Case, outs: &[Vec<Tok>]) -> Vec<String> {
         let op = &c.ops[k];
         if tok_bytes(&op[0]) == b"NOTE" && op.len() >= 2 && k + 2 < c.ops.len().min(outs.len()) {
             let kind = tok_bytes(&op[1]).to_vec();
-            let (d, s) = (dec_reply(&outs[k + 1]), dec_reply(&outs[k + 2]));
-            if let (Some(d), Some(s)) = (d, s) {
+            if let (Some(d), Some(s)) = (dec_reply(&outs[k + 1]), dec_reply(&outs[k + 2])) {
                 if kind == b"twin" {
                     let pcall = tok_bytes(&op[2]) == b"pcall";
+                    let sorted = op.len() > 3 && tok_bytes(&op[3]) == b"sorted";
                     let direct = cmd_of(&c.ops[k + 1]).unwrap_or_default();
                     let dargs: Vec<Vec<u8>> = direct.iter().map(|x| match x { V::Bulk(b) => b.clone(), _ => vec![] }).collect();
-                    let ev = cmd_of(&c.ops[k + 2]).unwrap_or_default();
-                    let (ds, ss) = (strip(&d), strip(&s));
-                    if ds != ss {
-                        // name the class
-                        let src = match ev.get(1) { Some(V::Bulk(b)) => b.clone(), _ => vec![] };
+                    // the property: the script answers what the direct command answers
+                    let want = strip(&std_view(&if sorted { sort_bulks(d.clone()) } else { d.clone() }));
+                    let ss = strip(&s);
+                    if want != ss {
                         let bin_arg = dargs.iter().skip(1).any(|a| std::str::from_utf8(a).is_err());
-                        let via_impl = strip(&impl_to_resp(&impl_to_lua(&d, pcall)));
+                        // what this implementation's conversions make of the direct reply (incl. table.sort)
+                        let via = { let l = impl_to_lua(&d, pcall);
+                                    let l = if sorted { match l { L::Table(t) if t.iter().all(|x| matches!(x, L::Str(_))) => { let mut t = t; t.sort_by(|a, b| match (a, b) { (L::Str(x), L::Str(y)) => x.cmp(y), _ => std::cmp::Ordering::Equal }); L::Table(t) } _ => L::Abort } } else { l };
+                                    strip(&impl_to_resp(&l)) };
                         let cls: Option<&'static str> =
                             if bin_arg { Some("lua-lossy") }
-                            else if dargs.len() > 1 && dargs[1] == b"a:" && matches!(&dargs[0].to_ascii_uppercase()[..], b"SET" | b"GET" | b"INCR" | b"INCRBY") { None }
-                            else if via_impl == ss {
+                            else if via == ss {
                                 if matches!(d, V::Error(_)) { Some(if pcall { "lua-pcall-nil" } else { "lua-error-code" }) }
                                 else if matches!(d, V::Simple(_)) { Some("lua-status-as-bulk") }
                                 else if has_bin(&d) { Some("lua-lossy") }
-                                else if has_big(&d) { None }
                                 else if has_nil(&d) { Some("lua-nil-truncates") }
                                 else if has_empty(&d) { Some("lua-empty-array-nil") }
                                 else { None }
-                            } else { command_class(&dargs) };
-                        let _ = src;
-                        let benign = via_impl == ss && has_big(&d) && !has_nil(&d) && !has_empty(&d) && !matches!(d, V::Error(_) | V::Simple(_));
-                        if !benign {
-                            match cls {
-                                Some(cl) => { if matches!(cl, "lua-lossy" | "lua-set-options" | "lua-expire-nonpositive" | "lua-renamenx-is-rename") && state_class.is_none() { state_class = Some(cl); }
-                                              fails.push(format!("FAIL case={} op={} class={} twin reply differs", c.id, k + 2, cl)); }
-                                None => fails.push(format!("FAIL case={} op={} twin reply differs: direct {:?} script {:?}", c.id, k + 2, ds, ss)),
-                            }
+                            } else if let Some(cl) = command_class(&dargs) { Some(cl) } else { state_class };
+                        match cls {
+                            Some(cl) => { if STATE_CLASSES.contains(&cl) && state_class.is_none() { state_class = Some(cl); }
+                                          fails.push(format!("FAIL case={} op={} class={} twin reply differs", c.id, k + 2, cl)); }
+                            None => fails.push(format!("FAIL case={} op={} twin reply differs: direct {:?} script {:?}", c.id, k + 2, want, ss)),
                         }
                     }
-                } else if kind == b"dump" {
-                    if strip(&d) != strip(&s) {
-                        match state_class {
-                            Some(cl) => fails.push(format!("FAIL case={} op={} class={} twin state differs", c.id, k + 2, cl)),
-                            None => fails.push(format!("FAIL case={} op={} twin state differs: {:?} vs {:?}", c.id, k + 2, strip(&d), strip(&s))),
-                        }
+                } else if kind == b"dump" && strip(&d) != strip(&s) {
+                    match state_class {
+                        Some(cl) => fails.push(format!("FAIL case={} op={} class={} twin state differs", c.id, k + 2, cl)),
+                        None => fails.push(format!("FAIL case={} op={} twin state differs: {:?} vs {:?}", c.id, k + 2, strip(&d), strip(&s))),
                     }
                 }
             }
